@@ -32,7 +32,21 @@ where
 			&scale_buf[0..n]
 		}
 	};
-	let buf: [u8; 16] = rust_decimal.mantissa().to_be_bytes();
+	serialize_unscaled(state, decimal_mode, rust_decimal.mantissa(), scale_to_write)
+}
+
+/// Writes `unscaled` (the decimal's unscaled value) as a big-endian
+/// two's-complement number, according to `decimal_mode`
+pub(super) fn serialize_unscaled<'r, 'c, 's, W>(
+	state: &'r mut SerializerState<'c, 's, W>,
+	decimal_mode: DecimalMode<'s>,
+	unscaled: i128,
+	scale_to_write: &[u8],
+) -> Result<(), SerError>
+where
+	W: Write,
+{
+	let buf: [u8; 16] = unscaled.to_be_bytes();
 	#[inline]
 	fn can_truncate_without_altering_number(buf: &[u8]) -> usize {
 		// If it's a negative number we can ignore all 0xff followed by MSB
@@ -126,7 +140,7 @@ where
 						None => {
 							assert!(size == 0);
 							// We only know how to represent 0 in this case (empty bytes)
-							if !rust_decimal.is_zero() {
+							if unscaled != 0 {
 								return Err(SerError::new(
 									"Non-zero decimal number can not be serialized \
 										as a fixed size decimal with size 0",
